@@ -234,6 +234,16 @@ def run(ctx):
     gen_cfg = write_cfg(ctx, "gen", 3, 2, 3, 4, 1, check=False)
     scripts = scripts_from_graph(ctx, rng, gen_cfg, 24 if ctx.quick() else 500, 8)
     concretise(ctx, rng, scripts)
+    # reproduction of the listed finding C17:ready:not-synced:fsm-queue-lag (one script, always): a join
+    # with log replay only (no snapshots) and the joiner's store writes held
+    lagsrc = sorted((sc for sc in scripts if any(st["a"] == "join" for st in sc["steps"])
+                     and not any(k in sc for k in ("gatejoin", "retries", "defaultfolder"))),
+                    key=lambda sc: next(k for k, st in enumerate(sc["steps"]) if st["a"] == "join"))
+    if lagsrc:
+        src = lagsrc[0]
+        cut = next(k for k, st in enumerate(src["steps"]) if st["a"] == "join") + 1
+        scripts.append({"id": 950, "src": "tour-prefix:" + str(src["id"]), "prop": "C17", "peers": src["peers"], "cids": src["cids"],
+                        "steps": src["steps"][:cut], "lagjoin": True, "ballast": 20})
     # the same node removed BackupsRotate + 1 times (re-joined in between): the clean-up has to rotate and
     # finally drop the oldest backup; a few pins first so that every cycle has a snapshot to back up
     for rot in ((1,) if ctx.quick() else (1, 2)):
